@@ -4,6 +4,7 @@ from fractions import Fraction as F
 from .core import *
 from .gen import *
 from . import oracles as O
+from . import specs as SP
 
 def scale(tier):
     return 1 if tier == "quick" else 6
@@ -107,7 +108,7 @@ def float_tie(pid):
     """model@float (Coq primitive binary64) against the implementation at f64 (release build), bit for bit, on fresh cases"""
     count = FLOAT_TIE.get(pid, 0) * (1 if _SEED[1] == "quick" else 4)
     if not count:
-        return [], {}
+        return float_tie_long(pid, _SEED[1])
     rng = Rng(_SEED[0] * 7919 + int(pid[1:]))
     names = [n for n in ALL_UNARY if n in FLOAT_OK]
     cases = []
@@ -140,7 +141,129 @@ def float_tie(pid):
         if fd != 0 and len(viols) < 2:
             viols.append(("float-correspondence", "model@float and the implementation at f64 differ bit-wise on %s at operation %d: the float-level theorems of %s are no longer tied to this code" % (d_sexpr(c.desc), fd, pid),
                           {"kind": "float-correspondence", "case": c.to_json(), "first_diff_op": fd, "no_failing_input": True}))
-    return viols, {"float_cases_bit_exact": len(cases), "float_mismatches": sum(1 for x in res if x)}
+    lv, lst = float_tie_long(pid, _SEED[1])
+    return viols + lv, dict({"float_cases_bit_exact": len(cases), "float_mismatches": sum(1 for x in res if x)}, **lst)
+
+# views a property's long float tie concentrates on (default: every float-executable view)
+LONG_TIE_VIEWS = {"C02": ["Sma", "Cumulative", "Min", "Max", "Welford", "WelfordMean", "WelfordVar", "Hln", "Roc", "Vst", "Vsct"], "C04": ["Sma", "Ema", "EmaAlpha"],
+                  "C05": ["Rsi", "MyRsi"], "C06": ["Cti", "Net", "Cog"], "C13": ["WRolling", "WRollingMean"]}
+def lcg_walk(n, s, c=2000):
+    """the integer walk of FloatExec.walk_ops (quarter units)"""
+    out = []
+    for _ in range(n):
+        s = (s * 6364136223846793005 + 1442695040888963407) % 2 ** 64
+        st = ((s >> 33) % 397 + 1) * (1 if (s >> 60) & 1 else -1)
+        c = c + st if 4 <= c + st <= 4000 else c - st
+        out.append(c)
+    return out
+
+def obs_hash(obs):
+    """FloatExec.hash_obs over the implementation's observations"""
+    h = 7
+    P = 2 ** 127 - 1
+    for b in obs:
+        if b.kind == "S":
+            bits = b.val
+            sign, e, m = bits >> 63, (bits >> 52) & 0x7FF, bits & ((1 << 52) - 1)
+            if e == 0x7FF:
+                k, sg, mm, ee = (2, 0, 0, 0) if m else (1, sign, 0, 0)
+            elif e == 0:
+                k, sg, mm, ee = (0, sign, m, -1074 if m else 0)
+            else:
+                k, sg, mm, ee = 0, sign, m | (1 << 52), e - 1075
+            c = 5 + k + 4 * sg + 8 * mm + 2 ** 62 * (ee + 1100)
+        else:
+            c = {"N": 1, "E": 2, "X": 3, "C": 4, "CE": 3}[b.kind]
+        h = (h * 1000003 + c) % P
+    return h
+
+def float_tie_long(pid, tier):
+    """model@float against the implementation at f64 on streams of thousands of steps: every observation enters a hash computed on both
+    sides (FloatExec.hash_walk_fe); the stream is the same integer recurrence on both sides.  Catches effects tied to the number of
+    updates (past 2^12 in the quick tier, past 2^16 in the thorough tier) in every float-executable view."""
+    rng = Rng(_SEED[0] * 104729 + int(pid[1:]))
+    names = LONG_TIE_VIEWS.get(pid) or [n for n in ALL_UNARY if n in FLOAT_OK]
+    cases = []
+    for name in names:
+        for rep in range(2 if pid in LONG_TIE_VIEWS else 1):
+            n = rng.choice([2, 3, 5, 14]) if rep == 0 else rng.choice([20, 33, 64])
+            if name == "Pfe":
+                d = ("Pfe", max(3, min(n, 9)), E, rng.choice([E, ("Ema", 3, E), ("Sma", 2, E)]))
+            elif name in WINDOWED or name in ("WelfordMean", "WelfordVar"):
+                d = (name, max(n, WINDOWED.get(name, 1)), E)
+            else:
+                d = mk_view(rng, name)
+            if not float_executable(d):
+                continue
+            L = 5000 if tier == "quick" else (70000 if name in O1_VIEWS or name in ("Ema", "EmaAlpha", "Laguerre", "Lrsi", "Cyber", "Min", "Max", "Hln") else 12000)
+            seed = rng.below(2 ** 40) + 1
+            xs = [F(c, 4) for c in lcg_walk(L, seed)]
+            cases.append((Case(d, [("v", 0, x) for x in xs], {"view": name, "regime": "lcg-walk", "mode": "f64", "model": False}), L, seed))
+    run_impl([c[0] for c in cases], mode="f64", profile="release")
+    nsh = min(NPROC, len(cases))
+    shards = [list(range(i, len(cases), nsh)) for i in range(nsh)]
+    bodies = []
+    for sh_ in shards:
+        items = ["hash_walk_fe %s %d %d" % (d_coq_f(cases[k][0].desc), cases[k][1], cases[k][2]) for k in sh_]
+        bodies.append("From Coq Require Import ZArith List Floats.\nFrom SF Require Import Res Scalar View Models Exec FloatOps FloatExec.\nImport ListNotations.\nOpen Scope Z_scope.\n"
+                      "Eval vm_compute in (map (fun z => (z, 0)) [\n" + ";\n".join(items) + "\n]).\n")
+    res = run_coq_shards(pid + "_floatlong", bodies)
+    viols, bad = [], 0
+    for sh_, (rc, txt) in zip(shards, res):
+        prs = parse_pairs(txt) if rc == 0 else None
+        if prs is None or len(prs) != len(sh_):
+            raise CoqError("coqc failed on a long float correspondence shard of %s:\n%s" % (pid, txt[-2500:]))
+        for k, p_ in zip(sh_, prs):
+            c = cases[k][0]
+            if p_[0] != obs_hash(c.obs):
+                bad += 1
+                if len(viols) < 2:
+                    fd = float_correspondence(pid + "_locate", [c])[0]
+                    short = Case(c.desc, c.ops[:fd] if fd > 0 else c.ops, dict(c.meta))
+                    short.obs, short.ctor_ok = c.obs[:fd] if fd > 0 else c.obs, c.ctor_ok
+                    viols.append(("float-correspondence", "model@float and the implementation at f64 differ bit-wise on %s at update %d of a %d-step stream: the float-level theorems of %s are no longer tied to this code"
+                                  % (d_sexpr(c.desc), fd, cases[k][1], pid),
+                                  {"kind": "float-correspondence", "case": short.to_json(), "first_diff_op": fd, "stream": {"generator": "FloatExec.walk_ops / props.lcg_walk", "length": cases[k][1], "seed": cases[k][2]}, "no_failing_input": True}))
+    return viols, {"float_long_cases_hashed": len(cases), "float_long_steps": sum(c[1] for c in cases), "float_long_mismatches": bad}
+
+NONFLOAT_LONG = ["Alma", "AlmaCustom", "Ss", "Roofing", "TrendFlex", "ReFlex", "Entropy", "LnReturn", "Eft"]
+def float_spec_long(pid, tier, rng):
+    """the views that need exp / cos / ln (not executable at Coq's floats, and whose exact runs are limited to a dozen steps): f64 run of
+    thousands of steps against the batch specification evaluated at binary64 with libm (same formulas, tolerance 1e-6 x scale)."""
+    import math
+    cases, viols = [], []
+    for name in NONFLOAT_LONG:
+        if pid in LONG_TIE_VIEWS and name not in ("Alma", "AlmaCustom") :
+            continue
+        if pid in LONG_TIE_VIEWS and pid != "C04":
+            continue
+        d = mk_view(rng, name, E, n=rng.choice([4, 7, 12])) if name not in ("LnReturn",) else mk_view(rng, name)
+        if name == "Eft":
+            d = ("Eft", d[1], E, rng.choice([E, ("Ema", 3, E), ("Sma", 2, E)]))
+        L = 3000 if name == "Eft" else (5000 if tier == "quick" else 70000)
+        seed = rng.below(2 ** 40) + 1
+        xs = [F(c, 4) for c in lcg_walk(L, seed)]
+        if name == "Entropy":
+            xs = [x - 500 for x in xs]
+        cases.append((Case(d, [("v", 0, x) for x in xs], {"view": name, "regime": "lcg-walk", "mode": "f64", "model": False}), L, seed))
+    run_impl([c[0] for c in cases], mode="f64", profile="release")
+    for (c, L, seed) in cases:
+        f = O.spec_for(c.desc)
+        if f is None:
+            continue
+        exp = SP.at_float(f, [float(x) for x in c.inputs()])
+        value_like = c.desc[0] in ("Alma", "AlmaCustom", "Ss")
+        for t, (e, b) in enumerate(zip(exp, c.obs)):
+            if e == "skip":
+                continue
+            g = None if b.kind == "N" else (O.f64_of_bits(b.val) if b.kind == "S" else b.kind)
+            ok = (e is None and g is None) or (isinstance(e, float) and isinstance(g, float) and abs(e - g) <= 1e-6 * max(1.0, abs(e), 1000.0 if value_like else 1.0))
+            if not ok:
+                viols.append(O.viol("long-spec-" + c.desc[0].lower(), "%s at update %d of a %d-step stream reports %s (f64), its batch specification evaluated at binary64 gives %s"
+                                    % (d_sexpr(c.desc), t + 1, L, g, e), [], desc=d_sexpr(c.desc), step=t + 1,
+                                    stream={"generator": "props.lcg_walk (quarter units)", "length": L, "seed": seed, "offset": -500 if c.desc[0] == "Entropy" else 0}))
+                break
+    return viols, {"float_spec_long_cases": len(cases), "float_spec_long_steps": sum(c[1] for c in cases)}
 
 def finish(pid, tag, cases, oracle_viols, rule, extra=None):
     cv, st = corr_violations(pid, tag, cases)
@@ -154,6 +277,10 @@ def finish(pid, tag, cases, oracle_viols, rule, extra=None):
     cv = cv + fv
     st.update(fst)
     viols = list(oracle_viols)
+    if not tag.endswith("_replay"):
+        lv, lst = float_spec_long(pid, _SEED[1], Rng(_SEED[0] * 15485863 + int(pid[1:])))
+        viols += lv
+        st.update(lst)
     if pid in ("C02", "C04", "C05", "C06", "C10", "C11", "C13"):
         sv, sst = coq_spec_check(pid, [c for c in cases if c.meta.get("model", True)])
         keys = {v[0] for v in viols}
@@ -174,7 +301,7 @@ def finish(pid, tag, cases, oracle_viols, rule, extra=None):
     cov.update(st)
     # evaluations = every execution of the implementation in this run; the exact-scalar cases (the ones also run through the model) are counted separately
     mult = {"f64_cases": 1, "long_f64_runs": 1, "fading_pairs": 2, "f64_vs_exact_runs": 2, "f32_runs": 2, "float_cases_bit_exact": 1, "f64_pow2_pairs": 2,
-            "f64_chain_groups": 3, "heap_measurements": 1, "f64_schedules": 1, "coq_spec_cases": 0}
+            "f64_chain_groups": 3, "heap_measurements": 1, "f64_schedules": 1, "coq_spec_cases": 0, "float_long_cases_hashed": 1, "dense_f64_vs_exact_runs": 3, "float_spec_long_cases": 1}
     cov["evaluations_exact_scalar_with_model"] = cov["evaluations"]
     cov["evaluations"] = cov["evaluations"] + sum(mult[k_] * int(cov.get(k_, 0)) for k_ in mult if isinstance(cov.get(k_, 0), int))
     return {"coverage": cov, "violations": viols}
@@ -440,6 +567,58 @@ def run_C01(rng, tier):
                   "every unary wrapper over a random inner view with warm-up / non-identity output: chain vs stand-alone inner + replay of the wrapper over Echo (exact at the rational scalar, bit-exact at f64); binary combinators over pairs; descriptor trees with logging Probe leaves",
                   {"f64_chain_groups": len(fgroups), "chain_groups": len(groups), "probe_trees": len(pcases)})
 
+# ---------------------------------------------------------------------------------- long / huge-window f64 runs against the exact scalar
+O1_VIEWS = {"Sma", "Cumulative", "Roc", "Welford", "WelfordMean", "WelfordVar", "Vst", "Vsct", "WRolling", "WRollingMean", "Gte", "Lte"}   # O(1) work per update
+def bounded_walk(rng, L, grid=100):
+    c = F(500)
+    xs = []
+    for _ in range(L):
+        st = F(rng.below(99 * grid) + 1, grid) * rng.choice([1, -1])      # non-zero steps, reflected at the borders of [1, 1000]
+        c = c + st if F(1) <= c + st <= F(1000) else c - st
+        xs.append(c)
+    return xs
+
+def dense_vs_exact(rng, tier, names, prefix, L=None, huge=True, spec=None):
+    """f64 (release) against the same code at the exact scalar, compared at EVERY step: a stream long enough to pass the usual counter
+    thresholds (2^12 in the quick tier, 2^16 and 2^17 in the thorough tier for O(1) views), and window lengths beyond 2^8 (2^16 thorough).
+    Effects tied to the number of updates or to a large window cannot hide between samples.  Returns (groups, violations)."""
+    groups = []
+    for name in names:
+        unary = name in ("WRolling", "WRollingMean")
+        LL = L or (9000 if tier == "quick" else (140000 if name in O1_VIEWS else 20000))
+        if name in ("Ema", "Cyber", "EmaAlpha"):
+            LL = 1200          # the exact run of a recursive view grows by a few bits per step
+        if name in ("Net", "Cti"):
+            LL = min(LL, 5000)
+        n = rng.choice([2, 3, 7, 20])
+        d = (name, E) if unary else (name, n, E)
+        xs = bounded_walk(rng, LL)
+        meta = {"view": name, "regime": "dense-long", "model": False}
+        groups.append(("long", Case(d, [("v", 0, x) for x in xs], dict(meta, mode="f64")), Case(d, [("v", 0, x) for x in xs], dict(meta, mode="ex")), None))
+        if huge and not unary and name not in ("Ema", "Cyber", "EmaAlpha"):
+            ns = [257 + rng.below(70)]
+            if tier != "quick" and name in O1_VIEWS | {"Min", "Max", "Hln"}:
+                ns.append(65537 + rng.below(5000))
+            for n in ns:
+                steps = n + 40 if name in ("Net", "Cti") else (2 * n + 50)
+                if n > 60000:
+                    steps = 2 * n + 50
+                xs = bounded_walk(rng, steps)
+                meta = {"view": name, "regime": "huge-window", "model": False}
+                groups.append(("long", Case((name, n, E), [("v", 0, x) for x in xs], dict(meta, mode="f64")), Case((name, n, E), [("v", 0, x) for x in xs], dict(meta, mode="ex")), None))
+    run_impl([g[1] for g in groups], mode="f64", profile="release")
+    if spec is None:
+        run_impl([g[2] for g in groups], mode="ex", profile="release", prec=(96, 64))
+        return groups, O.c16(groups, prefix=prefix)
+    # the exact run is also held against the batch specification (the f64 run and the exact run execute the same code, so their
+    # agreement alone says nothing about what that code computes); the specification uses the default surrogate precision
+    run_impl([g[2] for g in groups], mode="ex", profile="release", prec=(96, 64))
+    viols = O.c16(groups, prefix=prefix)
+    sp = [Case(g[2].desc, g[2].ops, dict(g[2].meta)) for g in groups if (len(g[2].desc) < 2 or not isinstance(g[2].desc[1], int) or g[2].desc[1] <= 1000) and len(g[2].ops) <= 20000]
+    run_impl(sp, mode="ex", profile="release")
+    viols += O.spec_check(spec[0], sp, spec[1])
+    return groups, viols
+
 # ---------------------------------------------------------------------------------- C02
 C02_VIEWS = ["Sma", "Cumulative", "Min", "Max", "Welford", "WelfordMean", "WelfordVar", "Hln", "Roc", "Entropy", "Vst", "Vsct"]
 def run_C02(rng, tier):
@@ -452,7 +631,10 @@ def run_C02(rng, tier):
             cases.append(Case.simple((v, n, E), [1, 1000, 3, 3, 3, 3, 3, -2, -2, -2, -2], {"regime": "spike-then-flat", "view": v}))
     run_impl(cases)
     viols = O.spec_check("C02", cases, "the definition over the last N values")
-    return finish("C02", "C02", cases, viols, "stand-alone windowed statistic, N in 1..12 weighted to 1,2; batch definition over exactly the last N values evaluated with exact rationals; non-trivial = at least 3 distinct observations")
+    dg, dv = dense_vs_exact(rng, tier, [v for v in C02_VIEWS if v != "Entropy"], "c02-long", spec=("C02", "the definition over the last N values"))
+    viols += dv
+    return finish("C02", "C02", cases, viols, "stand-alone windowed statistic, N in 1..12 weighted to 1,2 (and 20..40, 64, 97, 101, 128); batch definition over exactly the last N values evaluated with exact rationals; non-trivial = at least 3 distinct observations; f64 against the exact scalar at every step of long streams and with windows beyond 2^8 (2^16 in the thorough tier)",
+                  {"dense_f64_vs_exact_runs": len(dg), "dense_steps": sum(len(g[1].ops) for g in dg)})
 
 # ---------------------------------------------------------------------------------- C03
 C03_K = {"Sma": 0, "Cumulative": 0, "Min": 0, "Max": 0, "Welford": 0, "WelfordMean": 0, "WelfordVar": 0, "Vst": 0, "Vsct": 0, "Hln": 0, "Entropy": 0,
@@ -525,6 +707,8 @@ def run_C04(rng, tier):
     viols += O.spec_check("C04", [c for c in singles if c.desc[0] in ("Ema", "Alma", "EmaAlpha", "AlmaCustom")], "the defining recursion / Gaussian-kernel weighted mean")
     viols += O.pointwise_rel("c04-monotone", "raising an input lowered an output", mono, lambda a, b, prm, t, c: b >= a)
     viols += O.pointwise_rel("c04-affine", "does not commute with x -> a*x+b", aff, lambda a, b, prm, t, c: b == prm[0] * a + prm[1])
+    dg, dv = dense_vs_exact(rng, tier, ["Sma", "Ema", "Alma"], "c04-long", spec=("C04", "the defining recursion / window mean / Gaussian-kernel weighted mean"))
+    viols += dv
     return finish("C04", "C04", cases, viols, "Sma/Ema/Alma: hull and constant reproduction on single runs (incl. zeros and sign changes), paired runs for monotonicity (one input raised) and x -> a*x+b with rational a>0, b; Ema recursion and Alma kernel as batch specs; exact rationals")
 
 # ---------------------------------------------------------------------------------- C05
@@ -551,6 +735,8 @@ def run_C05(rng, tier):
             return None
         return b == (100 - a if c.desc[0] == "Rsi" else -a)
     viols += O.pointwise_rel("c05-negation", "negating the input must map Rsi to 100-Rsi / MyRSI to -MyRSI", neg, negrel)
+    dg, dv = dense_vs_exact(rng, tier, ["Rsi", "MyRsi"], "c05-long", spec=("C05", "gains/losses over the N most recent changes"))
+    viols += dv
     return finish("C05", "C05", cases, viols, "Rsi / MyRSI stand-alone, N in 1..12, all regimes incl. ties, monotone runs, spikes leaving the window, flat after volatile; closed form from G and L; negation pairs")
 
 # ---------------------------------------------------------------------------------- C06
@@ -600,6 +786,26 @@ def run_C06(rng, tier):
         if c.desc[0] == "Cog" and c.meta.get("regime") == "const":
             if any(g != 0 for g in c.outs()):
                 viols.append(O.viol("c06-cog-const", "CoG on a constant non-zero window is not 0: %s" % d_sexpr(c.desc), [c]))
+    # windows beyond 2^8 / 2^9 on strictly monotone streams (f64): the extreme value must still be reported
+    big = []
+    for n in ([257 + rng.below(70)] + ([513 + rng.below(100)] if tier != "quick" else [])):
+        for name in ("Net", "Cti"):
+            for sgn in (1, -1):
+                xs = [sgn * (F(3) + F(5, 4) * i) for i in range(n + 6)]
+                big.append((Case(("Net" if name == "Net" else "Cti", n, E), [("q", 0, x) for x in xs[:n - 1]] + [("v", 0, x) for x in xs[n - 1:]],
+                                 {"view": name, "regime": "huge-window-affine", "model": False, "mode": "f64"}), sgn))
+    run_impl([b[0] for b in big], mode="f64", profile="release")
+    for (c, sgn) in big:
+        for i, b in enumerate(c.obs):
+            if b.kind == "-":
+                continue
+            x = O.f64_of_bits(b.val) if b.kind == "S" else None
+            if x is None or abs(x - sgn) > 1e-9:
+                viols.append(O.viol("c06-monotone-huge-" + c.desc[0].lower(), "%s on an affine %s window of %d values reports %s, not %+d (f64, update %d)"
+                                    % (d_sexpr(c.desc), "rising" if sgn > 0 else "falling", c.desc[1], x if x is not None else b.kind, sgn, i + 1), [], desc=d_sexpr(c.desc)))
+                break
+    dg, dv = dense_vs_exact(rng, tier, ["Net", "Cti", "Cog"], "c06-long", spec=("C06", "the correlation definition on the window"))
+    viols += dv
     return finish("C06", "C06", cases, viols, "CTI/NET/CoG, N in 3..10: batch Pearson / Kendall / CoG formula on full windows; strictly monotone and affine windows; negation pairs; strictly increasing map for NET")
 
 def approx_s(g):
@@ -1129,18 +1335,6 @@ def run_C16(rng, tier):
             groups.append(("long", sampled(d, xs, dict(meta, mode="f64"), 997), sampled(d, xs, dict(meta, mode="ex"), 997), None))
             if name in ("WRolling", "WRollingMean"):
                 break
-    # medium-length streams compared at EVERY step (an effect tied to the update count cannot hide between samples)
-    for name in C16_VIEWS + ["WRolling", "WRollingMean"]:
-        n = rng.choice([3, 7, 20])
-        d = (name, E) if name in ("WRolling", "WRollingMean") else (name, n, E)
-        c = F(500)
-        xs = []
-        for _ in range(2600 if name != "Ema" else 1200):
-            st = F(rng.below(9900) + 1, 100) * rng.choice([1, -1])
-            c = c + st if F(1) <= c + st <= F(1000) else c - st
-            xs.append(c)
-        meta = {"view": name, "regime": "dense-bounded-range", "model": False}
-        groups.append(("long", Case(d, [("v", 0, x) for x in xs], dict(meta, mode="f64")), Case(d, [("v", 0, x) for x in xs], dict(meta, mode="ex")), None))
     # volatile stretch, then >= N+1 identical values
     for name in C16_VIEWS + ["Cyber"]:
         for rep in range(3 * k):
@@ -1168,6 +1362,9 @@ def run_C16(rng, tier):
     run_impl([g[1] for g in groups], mode="f64", profile="release")
     run_impl([g[2] for g in groups], mode="ex", profile="release", prec=(96, 64))
     viols = O.c16(groups)
+    dg, dv = dense_vs_exact(rng, tier, C16_VIEWS + ["WRolling", "WRollingMean"], "c16")
+    viols += dv
+    groups += dg
     # f32, shorter streams
     f32 = []
     for name in ("Sma", "Cumulative", "Ema", "WelfordMean", "Rsi", "Min", "Max"):
